@@ -194,8 +194,8 @@ func engineC20(c *vctx) error {
 		treeTerm := c20Term(top)
 		for ri := 0; ri < nrest; ri++ {
 			mode := []string{"MInclude", "MExclude", "MInclude", "MExclude", "MAll"}[rng.intn(5)]
-			if ti == 0 && ri < 2 {
-				mode = []string{"MInclude", "MExclude"}[ri]
+			if ti == 0 && ri < 4 {
+				mode = []string{"MInclude", "MExclude", "MExclude", "MExclude"}[ri]
 			}
 			del := rng.chance(50)
 			var pats, ipats []string
@@ -203,7 +203,7 @@ func engineC20(c *vctx) error {
 				np := 1 + rng.intn(3)
 				for i := 0; i < np; i++ {
 					p := c20Pattern(rng, paths)
-					if mode == "MInclude" && i > 0 && rng.chance(25) {
+					if i > 0 && rng.chance(25) {
 						p = "!" + p
 					}
 					if rng.chance(25) {
@@ -215,6 +215,12 @@ func engineC20(c *vctx) error {
 			}
 			if ti == 0 && ri == 0 {
 				pats, ipats, del = []string{"/a/b/x.go", "*.txt"}, nil, true
+			}
+			if ti == 0 && ri == 2 { // negated exclude below an excluded directory: nothing is re-included (documented)
+				pats, ipats, del = []string{"/a", "!/a/b"}, nil, false
+			}
+			if ti == 0 && ri == 3 { // negated exclude at the same level: re-included
+				pats, ipats, del = []string{"/a/*", "!/a/b"}, nil, true
 			}
 			if ti == 0 && ri == 1 {
 				pats, ipats, del = []string{"/a/b", "*.GO"}, []string{"/B/A"}, true
@@ -307,6 +313,12 @@ func engineC20(c *vctx) error {
 			}
 			term := fmt.Sprintf("C20m.mk C20m.%s %s %s %s %s %s %s", mode, cs(ipats), cs(pats), coqBool(del), treeTerm, coqList(xs), cs(obs))
 			kind := strings.ToLower(mode[1:])
+			for _, p := range append(append([]string{}, pats...), ipats...) {
+				if strings.HasPrefix(p, "!") {
+					kind += "-neg"
+					break
+				}
+			}
 			if del {
 				kind += "-delete"
 			}
